@@ -29,8 +29,8 @@ const (
 )
 
 var (
-	fldP   = bec.S256().P
-	fldN   = bec.S256().N
+	fldP   = bigOf("FFFFFFFFFFFFFFFFFFFFFFFFFFFFFFFFFFFFFFFFFFFFFFFFFFFFFFFEFFFFFC2F")
+	fldN   = bigOf("FFFFFFFFFFFFFFFFFFFFFFFFFFFFFFFEBAAEDCE6AF48A03BBFD25E8CD0364141")
 	fld256 = new(big.Int).Lsh(big.NewInt(1), 256)
 )
 
